@@ -147,7 +147,13 @@ func Run(c *core.Ctx) int {
 
 	// the -race binary is built in the background while the other parts run
 	raceBin := make(chan string, 1)
-	go func() { raceBin <- k.buildRaceBinary() }()
+	go func() {
+		if o := os.Getenv("C20_ONLY"); o != "" && !strings.Contains(o, "race") {
+			raceBin <- ""
+			return
+		}
+		raceBin <- k.buildRaceBinary()
+	}()
 
 	var jobs []func()
 	var post []func() // second phase, needs results of the first
@@ -159,11 +165,25 @@ func Run(c *core.Ctx) int {
 			post = append(post, k.timed(1000+len(post), j))
 		}
 	}
-	add(k.transparencyJobs())
-	add(k.isolationJobs())
-	add(k.damageJobs())
-	add(k.crashJobs())
-	add(k.concurrencyJobs())
+	// C20_ONLY=<part> restricts a run to one part (development aid: such a run ends in exit 2
+	// because the other parts stay below their observation floors)
+	only := os.Getenv("C20_ONLY")
+	want := func(p string) bool { return only == "" || strings.Contains(only, p) }
+	if want("transparency") {
+		add(k.transparencyJobs())
+	}
+	if want("iso") {
+		add(k.isolationJobs())
+	}
+	if want("damage") {
+		add(k.damageJobs())
+	}
+	if want("crash") {
+		add(k.crashJobs())
+	}
+	if want("conc") {
+		add(k.concurrencyJobs())
+	}
 	// longest first would be ideal; the e2e and crash baselines are at the front of their lists
 	c.Parallel(len(jobs), func(i int) { jobs[i]() })
 	post = append(post, k.raceJobs(<-raceBin)...)
@@ -172,6 +192,7 @@ func Run(c *core.Ctx) int {
 	k.finishTransparency()
 	k.finishDamage()
 	k.finishCrash()
+	k.finishConc()
 	k.flushClasses()
 
 	if len(k.short) > 0 {
